@@ -7,7 +7,7 @@
    conditions (the modified matrix factorises, 1 + v.z <> 0).
    PARTIAL: floating-point backward stability is covered by the exact-rational correspondence (K-solve), not by a theorem. *)
 From Coq Require Import List ZArith Bool Reals.
-From GMGP Require Import Scalar ScalarR TridiagDefs TridiagProofs TridiagCyclic TridiagSPD TridiagCyclicSPD TridiagCyclicDom.
+From GMGP Require Import Scalar ScalarR TridiagDefs TridiagProofs TridiagCyclic TridiagSPD TridiagCyclicSPD TridiagCyclicDom TridiagUnique.
 Import ListNotations.
 Local Open Scope R_scope.
 
@@ -81,6 +81,13 @@ Theorem C14_dominant_cyclic_solve_correct : forall d0 ds ss c b0 bs,
   @matvec_cyc Rsc (d0 :: ds) ss c (@solve_cyc Rsc (d0 :: ds) ss c (b0 :: bs)) = b0 :: bs.
 Proof. exact dominant_cyclic_solve_correct. Qed.
 
+(* an SPD tridiagonal system has at most one solution, for every dimension: what the solver returns is THE solution (this is the
+   uniqueness premise of the block Gauss-Seidel fixed-point theorems of C06 / C07 for positive definite line blocks) *)
+Theorem C14_spd_solution_unique : forall d ds ss x0 xs y0 ys,
+  length ss = length ds -> length xs = length ds -> length ys = length ds -> spd d ds ss ->
+  @matvec_tri Rsc (d :: ds) ss (x0 :: xs) = @matvec_tri Rsc (d :: ds) ss (y0 :: ys) -> x0 :: xs = y0 :: ys.
+Proof. exact spd_solution_unique. Qed.
+
 (* repeated solves with the same object and right-hand side return identical results (bit for bit:
    no law of arithmetic is used), the first solve included *)
 Theorem C14_repeated_solves_identical : forall (S : Sc) (t : @tri S) (b : list S),
@@ -97,3 +104,4 @@ Print Assumptions C14_cyclic_solve_correct.
 Print Assumptions C14_spd_solve_correct.
 Print Assumptions C14_spd_cyclic_solve_correct.
 Print Assumptions C14_dominant_cyclic_solve_correct.
+Print Assumptions C14_spd_solution_unique.
